@@ -122,9 +122,14 @@ class ComplexAngularCentralGaussian(_ProbabilisticModel):
                 eigenvalue_floor,
             )
         else:
+            max_eigenval = np.amax(eigenvals, axis=-1, keepdims=True)
+            # An all-zero covariance (e.g. a class that only contains zero
+            # vectors) has no scale: use the absolute floor as in the
+            # 'eigenvalue' branch, otherwise all eigenvalues stay zero.
+            max_eigenval = np.where(max_eigenval > 0, max_eigenval, 1)
             eigenvals = np.maximum(
                 eigenvals,
-                np.amax(eigenvals, axis=-1, keepdims=True) * eigenvalue_floor,
+                max_eigenval * eigenvalue_floor,
             )
         assert np.isfinite(eigenvals).all(), eigenvals
 
